@@ -15,6 +15,7 @@ package collection
 
 import (
 	"fmt"
+	"math"
 	"math/bits"
 	"runtime"
 	"sort"
@@ -29,26 +30,38 @@ import (
 const c09wMaxAdds = 50 // 2^49 is exact in a float64
 
 type c09wOp struct {
-	K string `json:"k"`           // add | addn | adv
-	N int    `json:"n,omitempty"` // addn: number of concurrent adders
+	K string `json:"k"`           // add | addn | adv | rpanic
+	N int    `json:"n,omitempty"` // addn: number of concurrent adders; rpanic: callback invocation that panics
 	D int64  `json:"d,omitempty"` // adv: nanoseconds
-	G string `json:"g,omitempty"` // adv: generator label (informational)
+	G string `json:"g,omitempty"` // adv: generator label (informational); rpanic: panic value kind
+	V string `json:"v,omitempty"` // add: special value instead of 2^i (see c09wValues)
 }
 
 type c09wCase struct {
 	Size int      `json:"size"`
 	Iv   int64    `json:"iv"` // bucket interval, nanoseconds
 	Ign  bool     `json:"ign"`
+	Dup  bool     `json:"dup,omitempty"` // IgnoreCurrentBucket() passed twice (variadic option list)
 	Ops  []c09wOp `json:"ops"`
 }
 
+// special values a caller may legally add (the shedder itself adds 0 for a zero latency)
+var c09wValues = map[string]float64{
+	"0": 0, "-0": math.Copysign(0, -1), "-1": -1, "0.1": 0.1, "2^53": 1 << 53, "2^53+1": 1<<53 + 1,
+	"max": math.MaxFloat64, "-max": -math.MaxFloat64, "tiny": math.SmallestNonzeroFloat64,
+	"inf": math.Inf(1), "nan": math.NaN(), "1e15": 1e15,
+}
+
+const c09wMaxEl = int64(250 * 365 * 24 * time.Hour) // keeps timex.Now() (about 1y at start) inside int64
+
 type c09wAdd struct {
 	bucket int64
-	id     int
+	id     int // -1: special value
+	val    float64
 }
 
 type c09wBucket struct {
-	sum   uint64
+	sum   uint64 // identity mode: bit set of add ids; value mode: float64 bits of the sequential sum (NaN canonical)
 	count int64
 }
 
@@ -62,24 +75,55 @@ func c09wIDs(sum uint64) []int {
 	return ids
 }
 
+func c09wBits(f float64) uint64 {
+	if f != f {
+		return 0x7ff8000000000001
+	}
+	return math.Float64bits(f)
+}
+
+func c09wSatMul(a, b int64) int64 {
+	if a > 0 && b > math.MaxInt64/a {
+		return math.MaxInt64
+	}
+	return a * b
+}
+
 func c09wInterp(t *testing.T, c c09wCase) (v kit.Verdict) {
-	if c.Size < 1 || c.Iv <= 0 {
+	if c.Size < 1 || c.Size > 1<<17 || c.Iv <= 0 {
 		v.Excluded = true
 		return v
 	}
 	nadds := 0
+	special, concurrent := false, false
+	var total int64
 	for _, o := range c.Ops {
 		switch o.K {
 		case "add":
-			nadds++
+			if o.V != "" {
+				if _, ok := c09wValues[o.V]; !ok {
+					v.Excluded = true
+					return v
+				}
+				special = true
+			} else {
+				nadds++
+			}
 		case "addn":
 			if o.N < 1 {
 				v.Excluded = true
 				return v
 			}
 			nadds += o.N
+			concurrent = true
 		case "adv":
-			if o.D < 0 {
+			if o.D < 0 || o.D > c09wMaxEl-total {
+				v.Excluded = true
+				return v
+			}
+			total += o.D
+		case "rpanic":
+			if o.N < 0 {
 				v.Excluded = true
 				return v
 			}
@@ -88,7 +132,8 @@ func c09wInterp(t *testing.T, c c09wCase) (v kit.Verdict) {
 			return v
 		}
 	}
-	if nadds > c09wMaxAdds {
+	// special values make bucket sums depend on the order of additions: only sequential adds then
+	if nadds > c09wMaxAdds || special && concurrent {
 		v.Excluded = true
 		return v
 	}
@@ -97,12 +142,17 @@ func c09wInterp(t *testing.T, c c09wCase) (v kit.Verdict) {
 	classes := map[string]bool{}
 	nontrivial := false
 	size := int64(c.Size)
+	win := c09wSatMul(size, c.Iv)
 	res := kit.Bubble(t, func() {
 		start := time.Now()
 		var opts []RollingWindowOption
 		if c.Ign {
 			opts = append(opts, IgnoreCurrentBucket())
 			classes["ignore-current"] = true
+			if c.Dup {
+				opts = append(opts, IgnoreCurrentBucket())
+				classes["option-passed-twice"] = true
+			}
 		}
 		rw := NewRollingWindow(c.Size, time.Duration(c.Iv), opts...)
 		var (
@@ -122,16 +172,24 @@ func c09wInterp(t *testing.T, c c09wCase) (v kit.Verdict) {
 			if c.Ign {
 				hi = cur - 1
 			}
-			want := map[int64]*c09wBucket{}
+			type ref struct {
+				ids   uint64
+				fsum  float64
+				count int64
+			}
+			want := map[int64]*ref{}
 			visible, total := 0, len(adds)
-			for _, a := range adds {
+			for _, a := range adds { // in the order of the (sequential) adds: the float sum is reproducible
 				if a.bucket > lo && a.bucket <= hi {
 					b := want[a.bucket]
 					if b == nil {
-						b = &c09wBucket{}
+						b = &ref{}
 						want[a.bucket] = b
 					}
-					b.sum |= 1 << uint(a.id)
+					if a.id >= 0 {
+						b.ids |= 1 << uint(a.id)
+					}
+					b.fsum += a.val
 					b.count++
 					visible++
 				}
@@ -143,11 +201,15 @@ func c09wInterp(t *testing.T, c c09wCase) (v kit.Verdict) {
 				classes["all-expired"] = true
 			}
 			var got []c09wBucket
-			calls := 0
+			var gotF []float64
 			bad := ""
 			rw.Reduce(func(b *Bucket) {
-				calls++
 				if b.Sum == 0 && b.Count == 0 {
+					return
+				}
+				if special {
+					got = append(got, c09wBucket{sum: c09wBits(b.Sum), count: b.Count})
+					gotF = append(gotF, b.Sum)
 					return
 				}
 				u := uint64(b.Sum)
@@ -162,13 +224,32 @@ func c09wInterp(t *testing.T, c c09wCase) (v kit.Verdict) {
 				return false
 			}
 			var wl []c09wBucket
+			var wlF []float64
 			for _, b := range want {
-				wl = append(wl, *b)
+				if special {
+					wl = append(wl, c09wBucket{sum: c09wBits(b.fsum), count: b.count})
+					wlF = append(wlF, b.fsum)
+				} else {
+					wl = append(wl, c09wBucket{sum: b.ids, count: b.count})
+				}
 			}
-			sort.Slice(wl, func(i, j int) bool { return wl[i].sum < wl[j].sum })
-			sort.Slice(got, func(i, j int) bool { return got[i].sum < got[j].sum })
+			less := func(l []c09wBucket) func(i, j int) bool {
+				return func(i, j int) bool {
+					if l[i].sum != l[j].sum {
+						return l[i].sum < l[j].sum
+					}
+					return l[i].count < l[j].count
+				}
+			}
+			sort.Slice(wl, less(wl))
+			sort.Slice(got, less(got))
 			if fmt.Sprint(got) == fmt.Sprint(wl) {
 				return true
+			}
+			if special {
+				fail = fmt.Sprintf("%s: at +%dns (bucket %d, visible buckets (%d,%d]) Reduce saw non-empty buckets (sum bits,count) %x sums %v, reference %x sums %v",
+					what, el, cur, lo, hi, got, gotF, wl, wlF)
+				return false
 			}
 			// diagnose in the statement's terms
 			byID := map[int]c09wAdd{}
@@ -210,15 +291,24 @@ func c09wInterp(t *testing.T, c c09wCase) (v kit.Verdict) {
 			what := fmt.Sprintf("op %d %s", i, o.K)
 			switch o.K {
 			case "add":
-				rw.Add(float64(uint64(1) << uint(nextID)))
-				adds = append(adds, c09wAdd{bucket: el / c.Iv, id: nextID})
-				nextID++
+				if o.V != "" {
+					val := c09wValues[o.V]
+					rw.Add(val)
+					adds = append(adds, c09wAdd{bucket: el / c.Iv, id: -1, val: val})
+					classes["value-"+o.V] = true
+					what += " " + o.V
+				} else {
+					val := float64(uint64(1) << uint(nextID))
+					rw.Add(val)
+					adds = append(adds, c09wAdd{bucket: el / c.Iv, id: nextID, val: val})
+					nextID++
+				}
 			case "addn":
 				classes["concurrent-adders"] = true
 				var wg sync.WaitGroup
 				for j := 0; j < o.N; j++ {
 					id := nextID
-					adds = append(adds, c09wAdd{bucket: el / c.Iv, id: id})
+					adds = append(adds, c09wAdd{bucket: el / c.Iv, id: id, val: float64(uint64(1) << uint(id))})
 					nextID++
 					wg.Add(1)
 					go func() {
@@ -227,6 +317,40 @@ func c09wInterp(t *testing.T, c c09wCase) (v kit.Verdict) {
 					}()
 				}
 				wg.Wait()
+			case "rpanic":
+				// a reducer callback that panics: the panic reaches the caller, and the window
+				// stays usable (its lock is released) - probed without risking a mutex wedge
+				var pv any
+				switch o.G {
+				case "error":
+					pv = fmt.Errorf("c09 reducer panic")
+				case "int":
+					pv = 42
+				default:
+					pv = "c09 reducer panic"
+				}
+				calls, panicked := 0, false
+				func() {
+					defer func() {
+						if r := recover(); r != nil {
+							panicked = true
+						}
+					}()
+					rw.Reduce(func(b *Bucket) {
+						if calls == o.N {
+							panic(pv)
+						}
+						calls++
+					})
+				}()
+				if panicked {
+					classes["reducer-panicked-"+o.G] = true
+					if !rw.lock.TryLock() {
+						fail = fmt.Sprintf("%s: after a reducer callback panicked (callback %d, %T) the window lock is still held: every later Add/Reduce blocks forever", what, o.N, pv)
+						return
+					}
+					rw.lock.Unlock()
+				}
 			case "adv":
 				what = fmt.Sprintf("op %d adv %dns (%s)", i, o.D, o.G)
 				time.Sleep(time.Duration(o.D))
@@ -244,18 +368,24 @@ func c09wInterp(t *testing.T, c c09wCase) (v kit.Verdict) {
 					if o.D < c.Iv && before/c.Iv == el/c.Iv {
 						classes["adv-within-bucket"] = true
 					}
-					if o.D >= size*c.Iv {
+					if o.D >= win {
 						classes["adv>=window"] = true
 					}
-					if o.D >= 2*size*c.Iv {
+					if o.D/2 >= win {
 						classes["adv-multi-window"] = true
+					}
+					if o.D/c.Iv >= 1<<31 {
+						classes["adv>=2^31-intervals"] = true
+					}
+					if o.D >= int64(30*24*time.Hour) {
+						classes["adv>=30d"] = true
 					}
 				} else {
 					classes["adv-zero"] = true
 				}
 			}
-			if o.K != "adv" {
-				if lastAddT >= 0 && el-lastAddT >= size*c.Iv {
+			if o.K == "add" || o.K == "addn" {
+				if lastAddT >= 0 && el-lastAddT >= win {
 					classes["add-after-long-gap"] = true
 				}
 				lastAddT = el
@@ -263,7 +393,7 @@ func c09wInterp(t *testing.T, c c09wCase) (v kit.Verdict) {
 					classes["ring-wrapped-add"] = true
 				}
 			}
-			if lastAddT >= 0 && el-lastAddT >= size*c.Iv {
+			if lastAddT >= 0 && el-lastAddT >= win {
 				nontrivial = true // a gap >= size*interval after an add, and a read after it
 			}
 			if !check(what) {
@@ -271,8 +401,21 @@ func c09wInterp(t *testing.T, c c09wCase) (v kit.Verdict) {
 			}
 		}
 	})
-	if c.Size == 1 {
+	switch {
+	case c.Size == 1:
 		classes["size-1"] = true
+	case c.Size >= 1000:
+		classes["size>=1000"] = true
+	case c.Size >= 64:
+		classes["size-64..999"] = true
+	}
+	switch {
+	case c.Iv < int64(time.Microsecond):
+		classes["interval<1us"] = true
+	case c.Iv < int64(time.Millisecond):
+		classes["interval<1ms"] = true
+	case c.Iv > int64(time.Second):
+		classes["interval>1s"] = true
 	}
 	v.NonTrivial = nontrivial
 	for k := range classes {
@@ -292,35 +435,70 @@ var c09wIntervals = []int64{
 	int64(100 * time.Millisecond), int64(250 * time.Millisecond), int64(time.Second),
 }
 
+// scale-free magnitudes (SWEEP class 1)
+var c09wSmallIntervals = []int64{1, 2, 3, 127, 128, 255, 256, 1000, 65535, 65536, 999999}
+var c09wBigIntervals = []int64{int64(time.Second) + 1, int64(time.Minute), int64(time.Hour), int64(30 * 24 * time.Hour)}
+var c09wBigSizes = []int{64, 127, 128, 129, 255, 256, 257, 1000, 4096, 65535, 65536, 65537}
+var c09wHugeGaps = []int64{int64(time.Minute), int64(time.Hour), int64(30 * 24 * time.Hour), int64(100 * 365 * 24 * time.Hour),
+	1<<31 - 1, 1 << 31, 1<<31 + 1, 1<<32 - 1, 1 << 32, 1<<32 + 1, 1 << 53, 1<<53 + 1}
+
 func c09wGen(rt *rapid.T) c09wCase {
 	c := c09wCase{
 		Size: rapid.IntRange(1, 12).Draw(rt, "size"),
 		Ign:  rapid.Bool().Draw(rt, "ign"),
 	}
-	if rapid.Bool().Draw(rt, "roundIv") {
+	switch rapid.SampledFrom([]string{"round", "round", "ns", "ns", "small", "big", "bigsize"}).Draw(rt, "ivkind") {
+	case "round":
 		c.Iv = rapid.SampledFrom(c09wIntervals).Draw(rt, "iv")
-	} else {
+	case "ns":
 		c.Iv = rapid.Int64Range(int64(time.Millisecond), int64(time.Second)).Draw(rt, "ivns")
+	case "small":
+		c.Iv = rapid.SampledFrom(c09wSmallIntervals).Draw(rt, "ivsmall")
+	case "big":
+		c.Iv = rapid.SampledFrom(c09wBigIntervals).Draw(rt, "ivbig")
+	case "bigsize":
+		c.Size = rapid.SampledFrom(c09wBigSizes).Draw(rt, "bigsize")
+		c.Iv = rapid.SampledFrom(append(append([]int64{}, c09wSmallIntervals...), c09wIntervals...)).Draw(rt, "ivbs")
 	}
+	c.Dup = c.Ign && rapid.IntRange(0, 7).Draw(rt, "dup") == 0
 	size := int64(c.Size)
 	n := rapid.IntRange(1, 40).Draw(rt, "nops")
+	if c.Size > 4096 {
+		n = rapid.IntRange(1, 12).Draw(rt, "nopsbig")
+	}
+	special := rapid.IntRange(0, 5).Draw(rt, "special") == 0
+	var valueKinds []string
+	for k := range c09wValues {
+		valueKinds = append(valueKinds, k)
+	}
+	sort.Strings(valueKinds)
 	var el int64
 	adds := 0
 	for i := 0; i < n; i++ {
-		k := rapid.SampledFrom([]string{"add", "add", "add", "add", "addn", "adv", "adv", "adv", "adv", "adv"}).Draw(rt, "k")
-		if k == "addn" && adds+4 > c09wMaxAdds || k == "add" && adds+1 > c09wMaxAdds {
+		k := rapid.SampledFrom([]string{"add", "add", "add", "add", "addn", "adv", "adv", "adv", "adv", "adv", "adv", "rpanic"}).Draw(rt, "k")
+		if k == "addn" && (special || adds+4 > c09wMaxAdds) || k == "add" && adds+1 > c09wMaxAdds {
 			k = "adv"
 		}
 		o := c09wOp{K: k}
 		switch k {
 		case "add":
-			adds++
+			if special && rapid.Bool().Draw(rt, "sv") {
+				o.V = rapid.SampledFrom(valueKinds).Draw(rt, "v")
+			} else {
+				adds++
+			}
 		case "addn":
 			o.N = rapid.IntRange(2, 4).Draw(rt, "n")
 			adds += o.N
+		case "rpanic":
+			o.N = rapid.IntRange(0, 3).Draw(rt, "pn")
+			o.G = rapid.SampledFrom([]string{"string", "error", "int"}).Draw(rt, "pk")
 		case "adv":
 			toB := c.Iv - el%c.Iv // exactly onto the next boundary (a full interval when on one)
-			o.G = rapid.SampledFrom([]string{"zero", "sub", "toB", "toB-1", "toB+1", "k", "k", "win", "win", "multi"}).Draw(rt, "g")
+			o.G = rapid.SampledFrom([]string{"zero", "sub", "toB", "toB-1", "toB+1", "k", "k", "win", "win", "multi", "huge"}).Draw(rt, "g")
+			if o.G == "sub" && c.Iv < 2 {
+				o.G = "toB"
+			}
 			switch o.G {
 			case "zero":
 				o.D = 0
@@ -344,6 +522,15 @@ func c09wGen(rt *rapid.T) c09wCase {
 				}
 			case "multi":
 				o.D = rapid.Int64Range(2, 5).Draw(rt, "mw")*size*c.Iv + rapid.Int64Range(0, c.Iv-1).Draw(rt, "mr")
+			case "huge": // a number of nanoseconds, or that number of intervals
+				o.D = rapid.SampledFrom(c09wHugeGaps).Draw(rt, "hg")
+				if rapid.Bool().Draw(rt, "hgiv") {
+					o.D = c09wSatMul(o.D, c.Iv)
+				}
+			}
+			if o.D > c09wMaxEl-el {
+				o.D = 0
+				o.G = "zero"
 			}
 			el += o.D
 		}
@@ -815,4 +1002,169 @@ func TestVerif_C09_window_slow_reducer(t *testing.T) {
 			return c
 		},
 		func(c c09rCase) kit.Verdict { return c09rInterp(t, c) })
+}
+
+// Long-lived window (SWEEP class 2): one window living through 10^3..10^5 cheap
+// adds of the value 1 spread over many revolutions (or all in ONE bucket, so
+// that per-bucket counts cross 2^15, 2^16), with a count-per-bucket reference;
+// Reduce is compared after every segment and every 4096 adds inside a segment.
+type c09lSeg struct {
+	N    int   `json:"n"`    // iterations
+	Per  int   `json:"per"`  // adds per iteration
+	Step int64 `json:"step"` // advance after each iteration, ns
+}
+
+type c09lCase struct {
+	Size int       `json:"size"`
+	Iv   int64     `json:"iv"`
+	Ign  bool      `json:"ign"`
+	Segs []c09lSeg `json:"segs"`
+}
+
+func c09lInterp(t *testing.T, c c09lCase) (v kit.Verdict) {
+	if c.Size < 1 || c.Size > 4096 || c.Iv <= 0 || len(c.Segs) > 16 {
+		v.Excluded = true
+		return v
+	}
+	var ops, span int64
+	for _, s := range c.Segs {
+		if s.N < 0 || s.Per < 0 || s.Step < 0 || s.N > 1<<20 || s.Per > 1<<10 || s.Step > int64(time.Hour) {
+			v.Excluded = true
+			return v
+		}
+		ops += int64(s.N) * int64(s.Per+1)
+		span += int64(s.N) * s.Step
+	}
+	if ops > 1<<21 || span > c09wMaxEl {
+		v.Excluded = true
+		return v
+	}
+	var fail string
+	size := int64(c.Size)
+	var maxBucket, totalAdds int64
+	res := kit.Bubble(t, func() {
+		var opts []RollingWindowOption
+		if c.Ign {
+			opts = append(opts, IgnoreCurrentBucket())
+		}
+		rw := NewRollingWindow(c.Size, time.Duration(c.Iv), opts...)
+		counts := map[int64]int64{}
+		var el int64
+		check := func(what string) bool {
+			cur := el / c.Iv
+			lo, hi := cur-size, cur
+			if c.Ign {
+				hi = cur - 1
+			}
+			var want []int64
+			for b, n := range counts {
+				if b <= lo {
+					delete(counts, b)
+				} else if b <= hi {
+					want = append(want, n)
+				}
+			}
+			var got []int64
+			torn := ""
+			rw.Reduce(func(b *Bucket) {
+				if float64(b.Count) != b.Sum {
+					torn = fmt.Sprintf("bucket with Sum %v but Count %d (every add has value 1)", b.Sum, b.Count)
+				}
+				if b.Count != 0 {
+					got = append(got, b.Count)
+				}
+			})
+			sort.Slice(want, func(i, j int) bool { return want[i] < want[j] })
+			sort.Slice(got, func(i, j int) bool { return got[i] < got[j] })
+			if torn != "" || fmt.Sprint(got) != fmt.Sprint(want) && !(len(got) == 0 && len(want) == 0) {
+				fail = fmt.Sprintf("%s: after %d adds at +%dns (bucket %d) Reduce saw bucket counts %v, reference %v %s", what, totalAdds, el, cur, got, want, torn)
+				return false
+			}
+			return true
+		}
+		for si, s := range c.Segs {
+			for i := 0; i < s.N; i++ {
+				for j := 0; j < s.Per; j++ {
+					rw.Add(1)
+					totalAdds++
+					if totalAdds%4096 == 0 {
+						counts[el/c.Iv] += int64(j + 1)
+						ok := check(fmt.Sprintf("segment %d iteration %d", si, i))
+						counts[el/c.Iv] -= int64(j + 1)
+						if !ok {
+							return
+						}
+					}
+				}
+				counts[el/c.Iv] += int64(s.Per)
+				if counts[el/c.Iv] > maxBucket {
+					maxBucket = counts[el/c.Iv]
+				}
+				if s.Step > 0 {
+					time.Sleep(time.Duration(s.Step))
+					el += s.Step
+				}
+			}
+			if !check(fmt.Sprintf("after segment %d", si)) {
+				return
+			}
+		}
+	})
+	v.NonTrivial = totalAdds >= 1000
+	switch {
+	case totalAdds >= 100000:
+		v.Classes = append(v.Classes, "adds>=1e5")
+	case totalAdds >= 10000:
+		v.Classes = append(v.Classes, "adds>=1e4")
+	case totalAdds >= 1000:
+		v.Classes = append(v.Classes, "adds>=1e3")
+	}
+	if maxBucket > 65536 {
+		v.Classes = append(v.Classes, "bucket-count>2^16")
+	} else if maxBucket > 32768 {
+		v.Classes = append(v.Classes, "bucket-count>2^15")
+	}
+	if fail != "" {
+		v.Fail = fail
+	} else if !res.OK() {
+		v.Fail = "bubble: " + res.String()
+	}
+	return v
+}
+
+func TestVerif_C09_window_longlived(t *testing.T) {
+	kit.Run(t, "C09", "window-longlived", kit.Opts{Quick: 40, Thorough: 640},
+		func(rt *rapid.T) c09lCase {
+			c := c09lCase{
+				Size: rapid.SampledFrom([]int{1, 2, 5, 10, 50, 256}).Draw(rt, "size"),
+				Iv:   rapid.SampledFrom([]int64{1000, int64(time.Millisecond), int64(100 * time.Millisecond)}).Draw(rt, "iv"),
+				Ign:  rapid.IntRange(0, 3).Draw(rt, "ign") == 0,
+			}
+			n := rapid.IntRange(1, 4).Draw(rt, "nsegs")
+			budget := 320000
+			for i := 0; i < n && budget > 0; i++ {
+				s := c09lSeg{}
+				switch rapid.SampledFrom([]string{"one-bucket", "roll", "roll", "sparse"}).Draw(rt, "segkind") {
+				case "one-bucket": // many adds at one instant: per-bucket count crosses 2^15 / 2^16
+					s.Per = 1
+					s.N = rapid.SampledFrom([]int{1000, 32767, 32769, 65535, 65537, 100001}).Draw(rt, "n1")
+					s.Step = 0
+				case "roll": // thousands of bucket rolls
+					s.N = rapid.SampledFrom([]int{1000, 5000, 20000}).Draw(rt, "n2")
+					s.Per = rapid.IntRange(1, 3).Draw(rt, "per")
+					s.Step = rapid.SampledFrom([]int64{c.Iv / 3, c.Iv - 1, c.Iv, c.Iv + 1, 2 * c.Iv}).Draw(rt, "step")
+				case "sparse": // a window-long gap between adds, many times
+					s.N = rapid.SampledFrom([]int{1000, 3000}).Draw(rt, "n3")
+					s.Per = 1
+					s.Step = int64(c.Size)*c.Iv + rapid.SampledFrom([]int64{-1, 0, 1}).Draw(rt, "sd")
+				}
+				if s.N*(s.Per+1) > budget {
+					s.N = budget / (s.Per + 1)
+				}
+				budget -= s.N * (s.Per + 1)
+				c.Segs = append(c.Segs, s)
+			}
+			return c
+		},
+		func(c c09lCase) kit.Verdict { return c09lInterp(t, c) })
 }
